@@ -1050,6 +1050,9 @@ func runC08(c *Ctx) {
 		sub.L.P = P
 		runC01HashArms(sub)
 		for _, o := range sub.L.Obls {
+			if strings.HasPrefix(o.Detail, "typed arm hashes") {
+				continue // which bytes a typed arm hashes is C01's business: no panic follows from it
+			}
 			if strings.Contains(o.Construct, "#term:") || o.Outcome != OK {
 				o.Rule = "R-C08-NOPANIC"
 				L.add(o)
